@@ -105,10 +105,11 @@ Definition glob_ok (ps : list gpiece) : bool :=
    (N.B. Nesting `{...}` is not currently allowed.)"
    So: an alternation may stand wherever an item of a component may stand; its alternatives are globs of the
    alternate-free syntax above (a list of pieces), or empty; at least one alternative is written between the
-   braces (`{}` is the one empty alternative).  The documented token tree of `{a,b,…}` is
+   braces (`{}` is the one empty alternative).  A ',' separates alternatives between braces only; outside
+   braces it is an ordinary character (AComma; between braces a literal comma is written `\,`).  The documented token tree of `{a,b,…}` is
    Alternates [tokens of a; tokens of b; …] in the order written, the tokens of an alternative being those the
    alternate-free reading assigns to it as a glob of its own ([glob_tokens]). *)
-Inductive aitem := AIt (i : gitem) | AAlt (bs : list (list gpiece)).
+Inductive aitem := AIt (i : gitem) | AComma | AAlt (bs : list (list gpiece)).
 Inductive apiece := APComp (its : list aitem) | APDStar.
 
 Fixpoint render_branches (bs : list (list gpiece)) : list N :=
@@ -122,6 +123,7 @@ Fixpoint render_branches (bs : list (list gpiece)) : list N :=
 Definition render_aitem (i : aitem) : list N :=
   match i with
   | AIt i => render_item i
+  | AComma => [44%N]
   | AAlt bs => 123%N :: render_branches bs ++ [125%N]
   end.
 Definition render_acomp (its : list aitem) : list N := flat_map render_aitem its.
@@ -140,6 +142,7 @@ Fixpoint render_aglob (ps : list apiece) : list N :=
 Definition aitem_tok (i : aitem) : token :=
   match i with
   | AIt i => item_tok i
+  | AComma => TLit 44
   | AAlt bs => TAlt (map glob_tokens bs)
   end.
 Definition acomp_toks (its : list aitem) : list token := map aitem_tok its.
@@ -186,6 +189,7 @@ Definition branch_ok_doc (b : list gpiece) : bool :=       (* what the documenta
 Definition aitem_ok_with (bok : list gpiece -> bool) (i : aitem) : bool :=
   match i with
   | AIt i => item_ok i
+  | AComma => true
   | AAlt bs => forallb bok bs && negb (match bs with [] => true | _ => false end)
   end.
 Fixpoint no_adjacent_astar (its : list aitem) : bool :=
@@ -210,3 +214,7 @@ Definition aglob_ok_with (bok : list gpiece -> bool) (ps : list apiece) : bool :
 Definition aglob_ok : list apiece -> bool := aglob_ok_with branch_ok.
 Definition aglob_ok_doc : list apiece -> bool := aglob_ok_with branch_ok_doc.
 
+
+(* the alternate-free syntax is the sub-syntax without AComma/AAlt *)
+Definition piece_inj (p : gpiece) : apiece :=
+  match p with PComp its => APComp (map AIt its) | PDStar => APDStar end.
